@@ -251,6 +251,11 @@ def mutants(spec):
                                 yield "missing_member", "%s/%s/anon" % (depth, kind), s
                         s = clone(); e2 = copy.deepcopy(e); e2[1].append(["zzextra", ["sig", new_sig(s, mi, 1)]]); setconn(s, e2)
                         yield "extra_member", "%s/%s/anon" % (depth, kind), s
+                        nested = [lf[0] for lf in leaves if len(lf[0]) >= 2]
+                        if nested:
+                            # ... a surplus scalar member named exactly like the flattened name of a nested leaf (`ctl_en` beside `ctl.en`)
+                            s = clone(); e2 = copy.deepcopy(e); e2[1].append(["_".join(nested[0]), ["sig", new_sig(s, mi, 1)]]); setconn(s, e2)
+                            yield "extra_member", "%s/%s/anon_named_like_nested_leaf" % (depth, kind), s
                     if e[0] == "bun":
                         # a bundle instance of a structurally equal definition with one leaf width changed
                         s = clone()
@@ -505,7 +510,7 @@ def shard(idx, n, tier):
         if len(ms) > MAX_MUTANTS:
             res.notes["mutants_beyond_cap_skipped"] += len(ms) - MAX_MUTANTS
             step = len(ms) / MAX_MUTANTS
-            rare = [x for x in ms if "portless" in x[1]]  # rare sites are never thinned out
+            rare = [x for x in ms if "portless" in x[1] or "nested_leaf" in x[1]]  # rare sites are never thinned out
             ms = [ms[int(i * step)] for i in range(MAX_MUTANTS)]
             ms += [x for x in rare if not any(x is y for y in ms)]
         for cls, site, mspec in ms:
